@@ -230,8 +230,8 @@ theorem bump_progress_core (h csh : Nat) (inputs : List PkgInput) :
     · omega
 
 theorem feerate_bump_monotone_core (w inp dust prev : Nat) (s : FeerateStrategy) (est fee' rate' : Nat)
-    (hw : 4 ≤ w) (h : feerateBump w inp dust prev s est = some (fee', rate')) :
-    prev ≤ rate' ∧
+    (h : feerateBump w inp dust prev s est = some (fee', rate')) :
+    (4 ≤ w → prev ≤ rate') ∧
     ((rate' = prev ∧ fee' = prev * w / 1000) ∨
      (prev * w / 1000 + INCREMENTAL_RELAY_FEE_SAT_PER_1000_WEIGHT * w / 1000 ≤ fee' ∧ dust ≤ inp - fee')) ∧
     (s = .forceBump → 4 ≤ prev →
@@ -250,7 +250,7 @@ theorem feerate_bump_monotone_core (w inp dust prev : Nat) (s : FeerateStrategy)
       simp only [Option.some.injEq] at h
       have h1 : (selectFee w prev s nf nr).1 = fee' := by rw [h]
       have h2 : (selectFee w prev s nf nr).2 = rate' := by rw [h]
-      refine ⟨by omega, Or.inl ⟨by omega, by rw [← h1]; exact hsel.2 heq⟩, ?_⟩
+      refine ⟨fun _ => by omega, Or.inl ⟨by omega, by rw [← h1]; exact hsel.2 heq⟩, ?_⟩
       intro hs hp
       subst hs
       have := selectFee_force_gt w prev nf nr hp
@@ -265,7 +265,7 @@ theorem feerate_bump_monotone_core (w inp dust prev : Nat) (s : FeerateStrategy)
         have hfee : prev * w / 1000 + INCREMENTAL_RELAY_FEE_SAT_PER_1000_WEIGHT * w / 1000 ≤ fee' := by
           rw [← h1]; exact Nat.le_max_right _ _
         refine ⟨?_, Or.inr ⟨hfee, ?_⟩, fun _ _ => hfee⟩
-        · rw [← h2, h1]; exact replacement_rate_ge w prev fee' hw hfee
+        · intro hw; rw [← h2, h1]; exact replacement_rate_ge w prev fee' hw hfee
         · rw [← h1]; omega
 
 theorem feerate_bump_none_core (w inp dust prev : Nat) (s : FeerateStrategy) (est : Nat)
